@@ -12,6 +12,8 @@ BASES = [
     "main:\n    li t0, 1\n    li t0, 2\n    lw t1, 4(sp)\n    call f\n    mv a1, t0\n    li a7, 10\n    ecall\nf:\n    li s1, 3\n    addi zero, zero, 1\n    mv a0, t2\n    ret\nunused:\n    li a2, 2\n",
     "main:\n    li a0\n    addi zero, zero, 1\n    li t5, 3\n    frobnicate a0\n    li a7, 10\n    ecall\nafter:\n    li t1, 1\n    j after\n    li t2, 2\n    li t3\n",
     corpus.CONFORMING,
+    # two functions with the same shape: cut into two files they have diagnostics at the same line and columns
+    "main:\n    call fa\n    call fb\n    li a7, 10\n    ecall\nfa:\n    li s0, 1\n    ret\nfb:\n    li s1, 2\n    ret\n",
 ]
 
 
@@ -80,6 +82,13 @@ def run(tier, replay=None):
         files, info = build(lines, p)
         texts = {n: text_of(n, files, p) for n in files}
         cases.append((p, info, texts))
+    # explicit plans for the twin-function base: both functions moved into files of their own
+    twin = BASES[-1].rstrip("\n").split("\n")
+    for nl in ([True] * 4, [False] * 4, [True, False, False, True]):
+        for s1, s3 in (([6, 8], [9, 11]), ([7, 8], [10, 11]), ([6, 7], [9, 10])):
+            p = {"s1": s1, "s2": [0, 0], "s3": s3, "nl": list(nl), "fault": "none", "n": 11}
+            files, info = build(twin, p)
+            cases.append((p, info, {n: text_of(n, files, p) for n in files}))
     if replay:
         w = json.load(open(replay))["witness"]
         cases = [(w["plan"], w["info"], w["texts"])]
@@ -192,6 +201,48 @@ def run(tier, replay=None):
                                                                            "Unsupported operation", "Invalid string"):
                         x["title"], x["c0"], x["c1"] = "(parse error)", 0, 0
             evs.append(ev)
+    with tempfile.TemporaryDirectory(dir=WORK) as td:
+        for k, (util_tail, main_tail) in enumerate((("", ""), ("    li t0, 1\n", "    li a7, 10\n    ecall\n"))):
+            for sub in ("lib", "a/b"):
+                up = "/".join([".."] * len(sub.split("/")))
+                texts = {"main.s": f'main:\n    li t1, 2\n.include "{sub}/util.s"\n' + main_tail,
+                         f"{sub}/util.s": f'helper:\n{util_tail}.include "{up}/main.s"\n    li t2, 3\n'}
+                dd, dt = os.path.join(td, f"c{k}{sub.replace('/', '_')}"), os.path.join(td, f"t{k}{sub.replace('/', '_')}")
+                for base_dir, blank in ((dd, False), (dt, True)):
+                    for n, t in texts.items():
+                        fp = os.path.join(base_dir, n)
+                        os.makedirs(os.path.dirname(fp), exist_ok=True)
+                        if blank and n.endswith("util.s"):
+                            t = "\n".join("" if ".include" in ln else ln for ln in t.split("\n"))
+                        open(fp, "w").write(t)
+
+                def run_json(dirp):
+                    try:
+                        q = subprocess.run([rva, "lint", os.path.join(dirp, "main.s"), "--json"], stdout=subprocess.PIPE, stderr=subprocess.DEVNULL, timeout=10)
+                    except subprocess.TimeoutExpired:
+                        return None
+                    res = []
+                    for x in json.loads(q.stdout.decode("utf-8", "replace"))["diagnostics"]:
+                        f = x["file"] or ""
+                        fn = os.path.relpath(os.path.realpath(f), os.path.realpath(dirp)) if f else ""
+                        kind = x["title"].split(":")[0]
+                        title = kind if kind in ("File not found", "IO Error", "Cyclic dependency") else x["title"]
+                        res.append({"title": title, "level": x["level"], "file": fn, "line": x["range"]["start"]["line"],
+                                    "c0": x["range"]["start"]["column"], "c1": x["range"]["end"]["column"], "kind": kind})
+                    return res
+                ncli += 2
+                a_, t_ = run_json(dd), run_json(dt)
+                utext = texts[f"{sub}/util.s"].split("\n")
+                info = {"fault": "cycle-through-subdirectory", "dirfile": f"{sub}/util.s", "dirline": [i for i, ln in enumerate(utext) if ".include" in ln][0]}
+                ev = {"ev": "inc", "id": len(evs) + 1, "case": info, "tree": {}, "lib_ev": "obs", "lib": [], "flat": [], "lib_twin": [],
+                      "cli_ev": "ok" if a_ is not None and t_ is not None else "timeout", "cli_all": a_ or [], "cli_base": [], "cli_hidden": 0,
+                      "cli_twin": t_ or [], "cli_only": True}
+                # the library side is not exercised for this case: make it trivially consistent (one fault on the directive, nothing else)
+                ev["lib"] = [{"title": "Cyclic dependency", "level": "Error", "file": info["dirfile"], "line": info["dirline"], "c0": 0, "c1": 0, "kind": "Cyclic dependency"}]
+                evs.append(ev)
+                cases.append(({"fault": "cycle-through-subdirectory"}, info, texts))
+    for e in evs:
+        e.setdefault("cli_only", False)
     v, ress = validate_chunks("Trace_Include", evs, wd, "inc.chunk", chunk=3000, heap="8g")
     for r in ress:
         out.add_tlc(r)
